@@ -103,6 +103,9 @@ class Exec:
         m = re.match(r"^'(.)'$", t)
         if m:
             return ("bv", bvlit(ord(m.group(1)), 32), 32)
+        m = re.match(r"^'\\(n|r|t|0|\\|')'$", t)
+        if m:
+            return ("bv", bvlit({"n": 10, "r": 13, "t": 9, "0": 0, "\\": 92, "'": 39}[m.group(1)], 32), 32)
         if t.startswith('"'):
             return ("opq", "str:" + t)
         if t.startswith('b"') or t.startswith("&") or t.startswith("["):
@@ -227,6 +230,8 @@ class Exec:
         m = re.match(r"^(AddWithOverflow|SubWithOverflow|MulWithOverflow)\((.*)\)$", rv)
         if m:
             a, b = [self.operand(env, x) for x in split_top(m.group(2))]
+            # an opaque operand of integer arithmetic (e.g. a pointer cast to usize) is a free 64-bit value keyed by its origin
+            a, b = [(self.typed_fresh("int:" + v[1], "usize") if v[0] == "opq" else v) for v in (a, b)]
             if a[0] != "bv" or b[0] != "bv":
                 raise Unsupported("checked arithmetic on a non-integer value: " + rv)
             w = a[2]
